@@ -31,9 +31,12 @@ zero potential with the real multislice code:
 Known finding C04-bandlimited-transmission-overshoot: the transmission function is band limited *after*
 exponentiation, so |t_bl(r)| exceeds 1 next to sharp features (Gibbs overshoot).  A step may then increase
 sum|psi|^2, but never by more than max_r |t_bl(r)|^2, where t_bl is rebuilt here in float64 from the potential
-slice, an independent interaction constant and the config's anti-alias zones.  A step whose ratio lies in
-(1+tol, max|t_bl|^2*(1+tol)] is classified as the known finding; anything above is a violation.  Kind
-"hostile" builds such inputs on purpose (sharp-edged phase objects, wave focused on the overshoot).
+slice, an independent interaction constant and the config's anti-alias zones.  A step that gains intensity is
+classified as the known finding only if (a) its ratio is at most max|t_bl|^2 and (b) - whenever the incident wave
+could be kept (<= 4 MB, not transposed) - the gain of every ensemble member equals, within float tolerance, the
+gain a float64 re-computation of "multiply by t_bl, then lose what the aperture removes" predicts for that very
+wave and slice.  Any other gain is a violation.  Kind "hostile" builds such inputs on purpose (sharp-edged phase
+objects, wave focused on the overshoot).
 """
 import threading
 
@@ -54,9 +57,12 @@ RULE = ("mixture of (a) real pipelines: random cells 1-4 atoms incl. heavy eleme
 CLAUSES = ["step-non-increase", "propagate-non-increase", "kernel-modulus", "transmission-unit-modulus", "aperture-range",
            "aperture-flat-zone", "vacuum-preserves-intensity", "reversible", "pipeline-reach"]
 QUICK = dict(n=400, time=35)
-THOROUGH = dict(n=9600, time=420, shards=16)
+THOROUGH = dict(n=6400, time=270, shards=16)
 
 TOL = {"float32": dict(inc=2e-5, mod=2e-5, rev=2e-4, vac=2e-5), "float64": dict(inc=1e-11, mod=1e-12, rev=1e-10, vac=1e-11)}
+# |observed after/before - float64 model of the band-limited step|; the float64 value is limited by the 5e-9 relative
+# difference between the CODATA-2018 interaction constant used here and the CODATA-2014 one in ase/abTEM
+MODEL_TOL = {"float32": 1e-5, "float64": 5e-8}
 AA_VARIANTS = [None, None, None, [0.5, 0.01], [0.8, 0.05], [2.0 / 3.0, 0.0], [0.6, 0.1], [0.9, 0.02]]
 ELEMENTS = ["Au", "Au", "Si", "C", "O", "Sr", "Ti", "Mo", "Cu", "N"]
 
@@ -248,6 +254,26 @@ def model_tbl_bound(v, energy, sampling, conjugate=False):
     return best
 
 
+def model_step_ratios(psi, v, energy, sampling, conjugate):
+    """after/before of one (non-transposed) multislice step per member, re-computed in float64: the wave is multiplied by
+    the band-limited transmission function t_bl = IFFT(A FFT(exp(+-i sigma V))) and then loses what the propagator kernel
+    (|K| = A, checked by the kernel-modulus clause) removes.  A is abTEM's own aperture array (its range / flat zone / zero
+    zone are judged by the aperture clauses; the shape of the taper is not fixed by the property)."""
+    from abtem.antialias import antialias_aperture
+    v = np.asarray(v, dtype=np.float64)
+    a = np.asarray(antialias_aperture(v.shape, tuple(sampling), np), dtype=np.float64)
+    t = np.exp((-1j if conjugate else 1j) * L.sigma(energy) * v)
+    tbl = np.fft.ifft2(np.fft.fft2(t) * a)
+    flat = np.asarray(psi).reshape((-1,) + v.shape)
+    out = np.empty(len(flat))
+    for i, m in enumerate(flat):
+        m = m.astype(np.complex128)
+        b = float((m.real ** 2 + m.imag ** 2).sum())
+        f = np.fft.fft2(m * tbl) * a
+        out[i] = float((f.real ** 2 + f.imag ** 2).sum()) / v.size / b if b > 0 else 0.0
+    return out
+
+
 def make_hooks(rec):
     import abtem
 
@@ -256,26 +282,37 @@ def make_hooks(rec):
             arr = waves._array
             before = L.intensity(arr)
             prec = _prec_of(arr)
+            names = ("propagator", "antialias_aperture", "conjugate", "transpose", "order")
+            opts = dict(zip(names, args))
+            opts.update(kwargs)
+            conj, transpose = bool(opts.get("conjugate", False)), bool(opts.get("transpose", False))
+            # the step works in place: keep the incident wave (when small) so that a gain can be pinned to its mechanism
+            psi0 = np.array(arr, copy=True) if (np.asarray(arr).nbytes <= 4e6 and not transpose) else None
             out = orig(waves, potential_slice, *args, **kwargs)
             after = L.intensity(out._array)
             ratio = _ratio(before, after)
-            bound = None
-            phase = None
+            bound = model = phase = None
             try:
                 from abtem.potentials.iam import TransmissionFunction
                 a0 = np.asarray(potential_slice.array[0])
+                gain = ratio > 1 + TOL[prec]["inc"]
                 if isinstance(potential_slice, TransmissionFunction):
                     phase = float("nan")
-                    if ratio > 1 + TOL[prec]["inc"]:
+                    if gain:
                         bound = float((np.abs(a0.astype(np.complex128)) ** 2).max())
                 else:
                     phase = float(np.abs(a0).max()) * L.sigma(waves._valid_energy)
-                    if ratio > 1 + TOL[prec]["inc"]:
+                    if gain:
                         bound = model_tbl_bound(a0, waves._valid_energy, potential_slice.sampling)
+                        if psi0 is not None:
+                            want = model_step_ratios(psi0, a0, waves._valid_energy, potential_slice.sampling, conj)
+                            b = np.atleast_1d(before).ravel()
+                            got = np.atleast_1d(after).ravel() / np.where(b > 0, b, 1.0)
+                            model = float(np.abs(got - want.ravel())[b > 0].max()) if (b > 0).any() else 0.0
             except Exception as e:  # the model could not be evaluated: leave unclassified (-> violation if ratio > 1)
-                bound = None
+                bound = model = None
                 phase = repr(e)
-            rec.steps.append((ratio, bound, int(np.size(before)), phase, prec))
+            rec.steps.append((ratio, bound, int(np.size(before)), phase, prec, model))
             return out
         return step
 
@@ -343,7 +380,7 @@ def _aperture_stats(a, gpts, sampling):
 
 def judge(ctx, rec, case, vacuum=False):
     """Evaluate everything the hooks recorded during one case."""
-    for ratio, bound, n, phase, prec in rec.steps:
+    for ratio, bound, n, phase, prec, model in rec.steps:
         tol = TOL[prec]["inc"]
         ctx.monitor("step-hook-evaluations")
         ctx.monitor("step-hook-members", n)
@@ -352,17 +389,25 @@ def judge(ctx, rec, case, vacuum=False):
             r = (ratio - 1) / tol
             if r > ctx.residuals.get("step-non-increase", -1):
                 ctx.residuals["step-non-increase"] = r
-        elif bound is not None and bound > 1 + tol and ratio <= bound * (1 + 10 * tol):
+            continue
+        # a gain: known finding only if it is exactly the gain the band-limited transmission function predicts
+        # (tight float64 model, per member) or - when the incident wave was too large to keep / the step was transposed -
+        # at least below the rigorous bound max|t_bl|^2
+        within_bound = bound is not None and bound > 1 + tol and ratio <= bound * (1 + 10 * tol)
+        matches_model = model is None or model <= MODEL_TOL[prec]
+        if within_bound and matches_model:
             ctx.clauses["step-non-increase"] += 1
-            ctx.note("overshoot-steps")
+            ctx.note("overshoot-steps" + ("-model-matched" if model is not None else "-bound-only"))
             ctx.known("C04-bandlimited-transmission-overshoot")
-            x = (ratio - 1) / (bound - 1)
-            if x > ctx.raw_residuals.get("overshoot-ratio-over-bound", -1):
-                ctx.raw_residuals["overshoot-ratio-over-bound"] = x
+            if model is not None:
+                r = model / MODEL_TOL[prec]
+                if r > ctx.residuals.get("overshoot-gain-vs-model", -1):
+                    ctx.residuals["overshoot-gain-vs-model"] = r
             if ratio - 1 > ctx.raw_residuals.get("largest-step-gain", -1):
                 ctx.raw_residuals["largest-step-gain"] = ratio - 1
         else:
-            ctx.expect(False, "step-non-increase", ratio=ratio, model_bound=bound, max_phase=phase, precision=prec)
+            ctx.expect(False, "step-non-increase", ratio=ratio, model_bound=bound, gain_minus_model=model, max_phase=phase,
+                       precision=prec)
     for ratio, kmax, kres, n, prec, dz in rec.props:
         ctx.monitor("propagate-hook-evaluations")
         ctx.expect(ratio <= 1 + TOL[prec]["inc"], "propagate-non-increase", ratio=ratio, precision=prec, dz=dz)
@@ -499,7 +544,7 @@ def check_pipeline(ctx, case):
                steps=len(rec.steps), propagations=len(rec.props), slices=nslices, configs=ncfg)
     ctx.monitor("pipelines-" + case["builder"] + ("-lazy" if case["lazy"] else "-eager"))
     judge(ctx, rec, case)
-    phases = [p for _, _, _, p, _ in rec.steps if isinstance(p, float) and p == p]
+    phases = [st[3] for st in rec.steps if isinstance(st[3], float) and st[3] == st[3]]
     ctx.nontrivial(len(rec.steps) >= 2 and phases and max(phases) > 0.1)
 
 
@@ -610,7 +655,7 @@ def check_reversible(ctx, case):
         ctx.close(np.asarray(bwd.array).reshape(ref.shape), ref, "reversible", rtol=0, atol=tol["rev"] * scale, how="multislice-conjugate")
         ctx.expect(len(rec.steps) - n0 == 2 * len(dzs), "pipeline-reach", steps=len(rec.steps) - n0, want=2 * len(dzs))
         # every vacuum step individually
-        for ratio, bound, n, phase, p in rec.steps[n0:]:
+        for ratio, bound, n, phase, p, _m in rec.steps[n0:]:
             ctx.close(ratio, 1.0, "vacuum-preserves-intensity", rtol=0, atol=tol["vac"], how="step-hook")
     judge(ctx, rec, case)
     ctx.nontrivial(support.get("n", 0) >= 5)
